@@ -186,7 +186,7 @@ struct Runner {
 rc::Gen<std::string> gen_piece(const std::string &delims) {
     return rc::gen::exec([=]() {
         int k = (int)*range(0, 11);
-        std::string plain = *text_over("abcXYZ09_-", 6);
+        std::string plain = *text_over(*range(0, 3) == 0 ? std::string("aZ0_" "\x80" "\xff" "\xa0" "\x01") : std::string("abcXYZ09_-"), 6);   // a quarter of the pieces carry bytes >= 0x80 and a control character (never whitespace, never a delimiter)
         std::string d(1, delims.empty() ? ' ' : *rc::gen::elementOf(delims));
         switch (k) {
         case 0: case 1: return plain;
